@@ -347,10 +347,32 @@ func calculateReuseIndexFor(r *Rule, oldResTcs []TrafficShapingController) (equa
 	return equalIdx, reuseStatIdx
 }
 
+// statReuseIndexFor returns the index of the first old traffic shaping controller whose metric can be reused for r,
+// skipping the controllers that an unchanged rule further down the list is going to keep; -1 if there is none.
+func statReuseIndexFor(r *Rule, oldResTcs []TrafficShapingController, laterRules []*Rule) int {
+	for idx, oldTc := range oldResTcs {
+		oldRule := oldTc.BoundRule()
+		if !oldRule.IsStatReusable(r) {
+			continue
+		}
+		kept := false
+		for _, later := range laterRules {
+			if oldRule.Equals(later) {
+				kept = true
+				break
+			}
+		}
+		if !kept {
+			return idx
+		}
+	}
+	return -1
+}
+
 // buildResourceTrafficShapingController builds TrafficShapingController slice from rules. the resource of rules must be equals to res.
 func buildResourceTrafficShapingController(res string, resRules []*Rule, oldResTcs []TrafficShapingController) []TrafficShapingController {
 	newTcsOfRes := make([]TrafficShapingController, 0, len(resRules))
-	for _, rule := range resRules {
+	for i, rule := range resRules {
 		if res != rule.Resource {
 			logging.Error(errors.Errorf("unmatched resource name, expect: %s, actual: %s", res, rule.Resource), "Unmatched resource name in hotspot.buildResourceTrafficShapingController()", "rule", rule)
 			continue
@@ -372,6 +394,8 @@ func buildResourceTrafficShapingController(res string, resRules []*Rule, oldResT
 			logging.Warn("[HotSpot buildResourceTrafficShapingController] Ignoring the hotspot param flow rule due to unsupported control behavior", "rule", rule)
 			continue
 		}
+		// the controller of an unchanged rule keeps its counters: its metric is not handed to another rule
+		reuseStatIdx = statReuseIndexFor(rule, oldResTcs, resRules[i+1:])
 		var tc TrafficShapingController
 		if reuseStatIdx >= 0 {
 			// generate new traffic shaping controller with reusable statistic metric.
